@@ -165,7 +165,7 @@ def search_matrix(run, n):
 
 def check_C13(run):
     run.cov["rule"] = ("depth- and node-limited searches on few-men roots of D (plus terminal roots), fresh 1 MB table, some with a second "
-                       "search on the table left by the first: position and history compared before/after; every request executed "
+                       "search on the table left by the first; also histories that are empty, lack the root's key or hold unrelated keys: position and history compared before/after; every request executed "
                        "twice in separate processes and compared with itself and with the model (depth, seldepth, score, nodes, "
                        "hashfull, pv); non-trivial = at least two iterations reported")
     reqs, meta = search_matrix(run, 300 if run.tier == "thorough" else 60)
@@ -173,6 +173,13 @@ def check_C13(run):
     for fen in ("7k/5Q2/6K1/8/8/8/8/8 b - - 0 1", "6k1/8/6K1/8/8/8/8/R7 w - - 0 1", "k7/8/1K6/8/8/8/8/7R w - - 99 60", "R6k/6pp/8/8/8/8/8/K7 b - - 0 1"):
         reqs.append("root\t0\t" + fen + "\t\t1\tdepth:2\tnodes:10")
         meta.append((fen, ["depth:2", "nodes:10"]))
+    # histories that do not end with the root's own key (empty, the root dropped, unrelated keys): terminal and ordinary roots
+    for fen in ("7k/5Q2/6K1/8/8/8/8/8 b - - 0 1", "R5k1/5ppp/8/8/8/8/8/6K1 b - - 0 1", "k7/8/1K6/8/8/8/8/7R w - - 3 60", "7k/5K2/6Q1/8/8/8/8/8 b - - 0 1",
+                "8/8/8/8/8/5k2/5p2/5K2 w - - 0 1", "6k1/8/6K1/8/8/8/8/R7 w - - 0 1", "4k3/8/8/3p4/4P3/8/8/4K3 w - - 0 1"):
+        for shape in ("H:empty", "H:drop", "H:junk"):
+            for ls in (["depth:3"], ["nodes:50", "depth:2"]):
+                reqs.append("root\t0\t" + fen + "\t" + shape + "\t1\t" + "\t".join(ls))
+                meta.append((fen, ls))
     a1, _ = vlib.run_impl_par(reqs)
     a2, _ = vlib.run_impl_par(list(reversed(reqs)))
     a2 = list(reversed(a2))
@@ -237,14 +244,22 @@ def check_C14(run):
     th = run.tier == "thorough"
     run.cov["rule"] = ("few-men roots with legal moves x depth limits 1..4 / node limits; reported depths must be 1..D in order, no iteration "
                        "after the first once N nodes are spent, bestmove = first move of the last pv, scores strictly inside the mate "
-                       "bounds; movetime / clock searches: measured wall time <= budget + 250 ms (a measurement, not a proof); "
+                       "bounds; movetime / clock searches (also zero and near-zero budgets on roots in check): iteration 1 reported, bestmove legal and head of the last pv, measured wall time <= budget + 250 ms (a measurement, not a proof); "
                        "depth 130 on K v K exercises the MAX_DEPTH cap")
     reqs, meta = search_matrix(run, 300 if th else 60)
     timed = []
     roots = small_roots(run, 40 if th else 10)
+    # roots whose side to move is in check (the check extension makes the first iteration deeper)
+    inchk = [e for e in pool_for(run)["pool"] if e["cls"] in ("check", "playout-check")]
+    run.rng.shuffle(inchk)
+    inchk = inchk[: (30 if th else 8)] + [{"fen": "rnbqkbnr/ppp1pppp/8/1B1p4/4P3/8/PPPP1PPP/RNBQK1NR b KQkq - 1 2"}, {"fen": "4k3/8/8/8/8/8/4r3/4K3 w - - 0 1"}]
     for e in roots:
         for ls in (["movetime:30"], ["movetime:0"], ["time:600:600"], ["time:200:200:4"], ["time:50:50:1"]):
             timed.append(("root\t0\t" + e["fen"] + "\t\t1\t" + ls[0], e["fen"], ls[0]))
+    for e in inchk:
+        for ls in (["movetime:0"], ["nodes:0"], ["time:20:20"], ["time:5:5:10"], ["nodes:1"], ["movetime:15"]):
+            timed.append(("root\t0\t" + e["fen"] + "\t\t1\t" + ls[0], e["fen"], ls[0]))
+    tlegal = legal_sets([t[1] for t in timed])
     cap = "root\t0\t8/8/8/4k3/8/8/4K3/8 w - - 0 1\t\t1\tdepth:130"
     impl, _ = vlib.run_impl_par(reqs + [cap])
     timpl, _ = vlib.run_impl([t[0] for t in timed])     # sequential: timing
@@ -288,10 +303,32 @@ def check_C14(run):
             nv += 1
             if nv <= 25:
                 run.violation("model-mismatch", "search report differs from the model's", {"request": rq, "implementation": a, "model": b}, found_input=False)
-    for (rq, fen, ls), a in zip(timed, timpl):
+    for (rq, fen, ls), a, lg in zip(timed, timpl, tlegal):
         d = parse_search(a)
         run.note_case((rq,), "timed")
         f = ls.split(":")
+        if a.startswith(("PANIC", "DIED")):
+            nv += 1
+            run.violation("panic", "search panics", {"request": rq, "implementation": a})
+            continue
+        if lg:
+            # whatever the budget: iteration 1 is reported, depths are consecutive, the move played heads the last pv and is legal
+            depths = [int(i["d"]) for i in d.get("infos", [])]
+            bad = None
+            if not depths or depths != list(range(1, len(depths) + 1)):
+                bad = f"reported iterations {depths} (the first iteration must always be reported, depths consecutive from 1)"
+            elif d["best"] != d["infos"][-1]["pv"].split("/")[0]:
+                bad = f"bestmove {d['best']} is not the first move of the last pv {d['infos'][-1]['pv']}"
+            elif d["best"] == "0000" or tuple(int(x) for x in d["best"].split("-")) not in lg:
+                bad = f"bestmove {d['best']} is not a legal move"
+            if bad:
+                nv += 1
+                if nv <= 25:
+                    run.violation("limit-or-coherence", bad, {"request": rq, "which": ls, "implementation": a,
+                                                              "repro": "printf '" + rq.replace("\t", "\\t") + "\n' | .build/cargo/release/rawr_harness /dev/stdout"})
+                continue
+        if f[0] == "nodes":
+            continue
         if f[0] == "movetime":
             budget = int(f[1])
         else:
@@ -348,7 +385,9 @@ def check_C11(run):
     want = -c["DRAW"]
     run.cov["rule"] = ("roots whose every legal move leads to a rule draw: (a) positions of the pool without legal captures or pawn moves, "
                        "half-move clock set to 99; (b) forced-repetition roots (every successor occurred before in the game, earlier "
-                       "occurrence at clock 0 and later), all colour mirrors; depth limits 2..4, empty table; every iteration >= 2 "
+                       "occurrence at clock 0 and later), all colour mirrors; (c) the same through the binary's command loop, where the forced reply "
+                       "recreates the position named in the `position` command (first key of the history), after an unrelated earlier game; "
+                       "depth limits 2..4, empty table; every iteration >= 2 "
                        "must report the draw constant and the answer must be legal")
     P = pool_for(run)
     cands = [e["fen"] for e in P["pool"] if sum(ch.isalpha() for ch in e["fen"].split(" ")[0]) <= (14 if th else 10)]
@@ -403,7 +442,46 @@ def check_C11(run):
         elif strip_ms(a) != b and "fuel" not in b:
             nv += 1
             run.violation("model-mismatch", "search report differs from the model's", {"request": rq, "implementation": a, "model": b}, found_input=False)
-    run.cov["traces_validated_against_impl"] = len(reqs)
+    # through the command loop of the binary: the game history is the one `position ... moves ...` builds; the forced reply
+    # recreates the FIRST position of the game (the one named in the command), after an unrelated earlier game
+    import props_proc
+    import gen as G
+    rel = vlib.build_engine("release")
+    first_reps = [("6k1/R7/5K2/8/8/8/8/8 w - - 0 1", "a7b7 g8h8 b7a7"), ("6k1/R7/5K2/8/8/8/8/8 w - - 37 60", "a7b7 g8h8 b7a7"),
+                  ("6k1/Q7/5K2/8/8/8/8/8 w - - 0 1", "a7b7 g8h8 b7a7"), ("1k6/7R/2K5/8/8/8/8/8 w - - 2 9", "h7g7 b8a8 g7h7"),
+                  ("k7/8/8/8/7q/8/6PK/6n1 w - - 0 1", "h2g1 h4e1 g1h2 e1h4"), ("k7/8/8/8/7q/8/6PK/6n1 w - - 0 1", "h2g1 h4e1 g1h2 e1h4 h2g1 h4e1 g1h2")]
+
+    def mirror_uci(mv):
+        return " ".join(t[0] + str(9 - int(t[1])) + t[2] + str(9 - int(t[3])) + t[4:] for t in mv.split(" "))
+    first_reps += [(G.mirror_fen(f), mirror_uci(mv)) for f, mv in first_reps]
+    conv = vlib.run_model([f"uci2rel\t{f}\t{mv}" for f, mv in first_reps])
+    okd = vlib.run_model([f"alldrawn\t{f}\t{cv}" for (f, mv), cv in zip(first_reps, conv)])
+    pjobs = []
+    for (f, mv), cv, ok in zip(first_reps, conv, okd):
+        if not ok.startswith("1") or len(cv.split(" ")) != len(mv.split(" ")):
+            run.cov["classes"]["skipped-not-all-drawn"] = run.cov["classes"].get("skipped-not-all-drawn", 0) + 1
+            continue
+        for pre in ([], ["position startpos moves e2e4 e7e5", "go depth 2"], ["ucinewgame"]):
+            for depth in (2, 3, 4):
+                pjobs.append((f, mv, ["isready"] + pre + [f"position fen {f} moves {mv}", f"go depth {depth}", "quit"]))
+    pres = vlib.par_map(lambda j: props_proc.run_engine(rel, j[2], timeout=60), pjobs)
+    for (f, mv, sc), (out, err, rc, to) in zip(pjobs, pres):
+        run.note_case(tuple(sc), "command-loop-repetition")
+        lines = out.split("\n")
+        k = max(i for i, l in enumerate(lines) if l == "readyok") if "readyok" in lines else 0
+        last = [l for l in lines[k:] if l.startswith(("info depth", "bestmove"))]
+        # only the reports of the last `go`
+        cut = max([i for i, l in enumerate(last[:-1]) if l.startswith("bestmove")] + [-1])
+        last = last[cut + 1:]
+        scores = [(int(re.search(r"depth (\d+)", l).group(1)), re.search(r"score (\S+ -?\d+)", l).group(1)) for l in last if l.startswith("info depth")]
+        bads = [x for x in scores if x[0] >= 2 and x[1] != f"cp {want}"]
+        best = [l for l in last if l.startswith("bestmove")]
+        if to or rc != 0 or not best or best[0] == "bestmove 0000" or bads or len(scores) < 2:
+            nv += 1
+            if nv <= 25:
+                run.violation("draw-score", f"through the command loop: iterations (depth, score) {bads or scores} do not report the draw constant cp {want}",
+                              {"script": ["uci"] + sc, "reports": last, "repro": "printf 'uci\\n" + "\\n".join(sc) + "\\n' | " + rel})
+    run.cov["traces_validated_against_impl"] = len(reqs) + len(pjobs)
     if reqs:
         run.sample({"request": reqs[0], "implementation": impl[0][:300]})
         run.sample({"request": reqs[-1], "implementation": impl[-1][:300]})
